@@ -136,11 +136,17 @@ CheckPV(ev, name, pv, v) ==
 ReportFmt(ev, v, tn) ==
   LET f == ev.obs.fmt
       lib == v.ty \in LibTy
+      hasPkg == \E i \in 1..Len(AllNodes(v)) : AllNodes(v)[i].ty \in {"pkgFundamental", "pkgWithStack", "pkgWithMessage"}
   IN
   IF tn.h \/ tn.dv THEN TRUE
   ELSE
   /\ Chk(~lib \/ f.badDirect = <<>>, ev, "fmt.direct", "verdict", {"C09"}, <<>>, f.badDirect)
   /\ Chk(f.badFormattable = <<>>, ev, "fmt.formattable", "verdict", {"C09"}, <<>>, f.badFormattable)
+  \* (with the + flag on s / q / x / X: the statement lists - # space 0 for these verbs, the
+  \* quantifier also +; pkg/errors' own types read + as "verbose" whatever the verb, so the
+  \* + variants are judged on values without such a layer)
+  /\ Chk(~lib \/ hasPkg \/ f.badDirectPlus = <<>>, ev, "fmt.direct", "verdict", {"C09"}, <<>>, f.badDirectPlus)
+  /\ Chk(hasPkg \/ f.badFormattablePlus = <<>>, ev, "fmt.formattable", "verdict", {"C09"}, <<>>, f.badFormattablePlus)
   /\ Chk(~lib \/ f.badVerb = <<>>, ev, "fmt.otherverb", "verdict", {"C09"}, <<>>, f.badVerb)
   /\ Chk(f.badVerbF = <<>>, ev, "fmt.otherverbF", "verdict", {"C09"}, <<>>, f.badVerbF)
   /\ Chk(f.goSyntax, ev, "fmt.gosyntax", "verdict", {"C09"}, TRUE, FALSE)
